@@ -530,11 +530,16 @@ func (c *Client) AllocateIPForSubscriber(ctx context.Context, subscriberID strin
 	}
 
 	// Update subscriber with allocated IP
+	prevPool := sub.IPv4Pool
 	sub.IPv4Addr = ip
 	sub.IPv4Pool = poolID
 	sub.UpdatedAt = time.Now().UTC()
 
 	if err := c.SaveSubscriber(ctx, sub); err != nil {
+		// Not recorded: a retry must not return the unrecorded address as the
+		// subscriber's, and it stays free for others
+		sub.IPv4Addr = ""
+		sub.IPv4Pool = prevPool
 		return "", fmt.Errorf("save subscriber: %w", err)
 	}
 
@@ -623,6 +628,11 @@ func (c *Client) GetSubscriberPool(ctx context.Context, subscriberID string) (*I
 
 // ReleaseSubscriberIP releases a subscriber's IP allocation.
 func (c *Client) ReleaseSubscriberIP(ctx context.Context, subscriberID string) error {
+	// Serialised with allocation: until the store has accepted the release the
+	// address must not look free to an allocation for another subscriber
+	c.allocMu.Lock()
+	defer c.allocMu.Unlock()
+
 	sub, ok := c.GetSubscriber(subscriberID)
 	if !ok {
 		return fmt.Errorf("subscriber %s not found", subscriberID)
@@ -637,10 +647,17 @@ func (c *Client) ReleaseSubscriberIP(ctx context.Context, subscriberID string) e
 		zap.String("ip", sub.IPv4Addr),
 	)
 
+	released := sub.IPv4Addr
 	sub.IPv4Addr = ""
 	sub.UpdatedAt = time.Now().UTC()
 
-	return c.SaveSubscriber(ctx, sub)
+	if err := c.SaveSubscriber(ctx, sub); err != nil {
+		// The store still records the address for this subscriber; keep the
+		// cache in step, or the address would be handed to another subscriber
+		sub.IPv4Addr = released
+		return err
+	}
+	return nil
 }
 
 // Helper functions
